@@ -47,7 +47,13 @@ def confirm(args):
         res['demo_without_tail'] = o[-600:]
         rc, o = sh('git apply %s' % os.path.join(out, 'patch.diff'), cwd=wt)
         assert rc == 0, 'patch does not apply: ' + o
+        # the pinned suite is run without the demonstration files
+        for c in copies:
+            os.remove(os.path.join(wt, c.split(':')[1]))
         ok, n, tail = tests_pass(wt)
+        for c in copies:
+            src, dst = c.split(':')
+            shutil.copy(os.path.join(out, src), os.path.join(wt, dst))
         res['tests_pass_with_change'] = ok
         res['tests_passed_count'] = n
         if not ok:
